@@ -26,13 +26,14 @@ theorem s_final {b5 xs xm : Int} {m i : Nat} (hxs : xs ≤ 0) :
   · exact upd_of_le (by omega)
   · rfl
 
-/-- one `if cand > best { best = cand; tb.set_s_bits(code) }` -/
-theorem chain_step {P : Tb → Int → Prop} {c0 c k : Tb} {b0 b v : Int}
-    (h : (c = c0 ∧ b = b0) ∨ P c b) (hk : P k v) :
-    ((if v > b then k else c) = c0 ∧ upd v b = b0) ∨ P (if v > b then k else c) (upd v b) := by
+/-- one `if cand > best { best = cand; tb.set_s_bits(code) }`: the pair (code, value) is still the default, or it is
+good and one of the candidates' codes (`Q`) -/
+theorem chain_step {P : Tb → Int → Prop} {Q : Tb → Prop} {c0 c k : Tb} {b0 b v : Int}
+    (h : (c = c0 ∧ b = b0) ∨ (P c b ∧ Q c)) (hk : P k v) (hq : Q k) :
+    ((if v > b then k else c) = c0 ∧ upd v b = b0) ∨ (P (if v > b then k else c) (upd v b) ∧ Q (if v > b then k else c)) := by
   unfold upd
   split
-  · right; exact hk
+  · right; exact ⟨hk, hq⟩
   · exact h
 
 theorem trk_shape (b xm : Int) (k lx : Nat) :
@@ -96,8 +97,8 @@ theorem stepJ_good_S (hxs : cl.xs ≤ 0) {i j : Nat} (prev : List Row) (r : Row)
     (hY : ∃ v0, Good sc cl x y T (i + 1) 0 (T.tS (i + 1) 0) v0 ∧ sc.go + sc.ge * ((i + 1 : Nat) : Int) ≤ v0) :
     ((stepJ sc cl x y (j + 1) prev (i + 1) r).t.ts = .xsuf ∧
       (stepJ sc cl x y (j + 1) prev (i + 1) r).s = (if i + 1 = x.length then r.xm else minScore)) ∨
-    Good sc cl x y T (i + 1) (j + 1) (stepJ sc cl x y (j + 1) prev (i + 1) r).t.ts
-      (stepJ sc cl x y (j + 1) prev (i + 1) r).s := by
+    (Good sc cl x y T (i + 1) (j + 1) (stepJ sc cl x y (j + 1) prev (i + 1) r).t.ts
+      (stepJ sc cl x y (j + 1) prev (i + 1) r).s ∧ (stepJ sc cl x y (j + 1) prev (i + 1) r).t.ts ≠ .xsuf) := by
   obtain ⟨vx, hgx, hvx⟩ := hX
   obtain ⟨vy, hgy, hvy⟩ := hY
   -- the five candidates
@@ -112,8 +113,12 @@ theorem stepJ_good_S (hxs : cl.xs ≤ 0) {i j : Nat} (prev : List Row) (r : Row)
     good_ypre (by omega) hj hgy (by omega)
   have h0 : ((Tb.xsuf = Tb.xsuf ∧ (if i + 1 = x.length then r.xm else minScore) =
       (if i + 1 = x.length then r.xm else minScore)) ∨
-      Good sc cl x y T (i + 1) (j + 1) .xsuf (if i + 1 = x.length then r.xm else minScore)) := Or.inl ⟨rfl, rfl⟩
-  have c5 := chain_step (chain_step (chain_step (chain_step (chain_step h0 k1) hI) hD) k4) k5
+      (Good sc cl x y T (i + 1) (j + 1) .xsuf (if i + 1 = x.length then r.xm else minScore) ∧ Tb.xsuf ≠ Tb.xsuf)) :=
+    Or.inl ⟨rfl, rfl⟩
+  have q1 : (if x.getD i 0 = y.getD j 0 then Tb.mat else Tb.subst) ≠ Tb.xsuf := by split <;> simp
+  have c5 := chain_step (Q := (· ≠ Tb.xsuf)) (chain_step (Q := (· ≠ Tb.xsuf)) (chain_step (Q := (· ≠ Tb.xsuf))
+    (chain_step (Q := (· ≠ Tb.xsuf)) (chain_step (Q := (· ≠ Tb.xsuf)) h0 k1 q1) hI (by simp)) hD (by simp)) k4 (by simp))
+    k5 (by simp)
   -- the value stored: `S[curr][i] + xclip_suffix > S[curr][m]` cannot fire for `i = m`
   simp only [stepJ, Nat.add_sub_cancel]
   rw [s_final hxs]
@@ -175,14 +180,16 @@ theorem step0_good_S {i : Nat} (r : Row) (hi : i + 1 ≤ x.length)
     (hO : ∃ v0, Good sc cl x y T 0 0 (T.tS 0 0) v0 ∧ 0 ≤ v0) :
     ((step0 sc cl x y (i + 1) r).t.ts = (if i + 1 = x.length then Tb.xsuf else Tb.start) ∧
       (step0 sc cl x y (i + 1) r).s = (if i + 1 = x.length then r.xm else minScore)) ∨
-    Good sc cl x y T (i + 1) 0 (step0 sc cl x y (i + 1) r).t.ts (step0 sc cl x y (i + 1) r).s := by
+    (Good sc cl x y T (i + 1) 0 (step0 sc cl x y (i + 1) r).t.ts (step0 sc cl x y (i + 1) r).s ∧
+      (step0 sc cl x y (i + 1) r).t.ts ≠ .xsuf) := by
   obtain ⟨v0, hg0, hv0⟩ := hO
   have k2 : Good sc cl x y T (i + 1) 0 .xpre cl.xp := good_xpre (by omega) hi hg0 (by omega)
   have h0 : (((if i + 1 = x.length then Tb.xsuf else Tb.start) = (if i + 1 = x.length then Tb.xsuf else Tb.start) ∧
       (if i + 1 = x.length then r.xm else minScore) = (if i + 1 = x.length then r.xm else minScore)) ∨
-      Good sc cl x y T (i + 1) 0 (if i + 1 = x.length then Tb.xsuf else Tb.start)
-        (if i + 1 = x.length then r.xm else minScore)) := Or.inl ⟨rfl, rfl⟩
-  have c2 := chain_step (chain_step h0 hI) k2
+      (Good sc cl x y T (i + 1) 0 (if i + 1 = x.length then Tb.xsuf else Tb.start)
+        (if i + 1 = x.length then r.xm else minScore) ∧
+        (if i + 1 = x.length then Tb.xsuf else Tb.start) ≠ Tb.xsuf)) := Or.inl ⟨rfl, rfl⟩
+  have c2 := chain_step (Q := (· ≠ Tb.xsuf)) (chain_step (Q := (· ≠ Tb.xsuf)) h0 hI (by simp)) k2 (by simp)
   simp only [step0] at c2 ⊢
   exact c2
 
